@@ -57,6 +57,17 @@ func opWindow(fields []string) string {
 			add(fmt.Sprintf("skiptake:%d:%d", i, j), fmt.Sprintf("skip %d take %d", i, j))
 		}
 	}
+	if n >= 9 {
+		// counts of two digits, and the same counts SPELLED with leading zeros (a count is a decimal numeral)
+		for _, sp := range [][2]string{{"10", "10"}, {"10", "010"}, {"10", "0010"}, {"9", "09"}, {"8", "008"}, {"12", "012"}, {"11", "11"}} {
+			add("top:"+sp[0], "top "+sp[1])
+			add("take:"+sp[0], "take "+sp[1])
+			add("skip:"+sp[0], "skip "+sp[1])
+			add("last:"+sp[0], "last "+sp[1])
+			add("skiptake:1:"+sp[0], "skip 1 take "+sp[1])
+			add("skiptake:"+sp[0]+":2", "skip "+sp[1]+" take 2")
+		}
+	}
 	return strings.Join(out, "\t")
 }
 
@@ -131,6 +142,18 @@ func init() {
 					cases = append(cases, Case{ID: fmt.Sprintf("wn%d.%d.%d", bi, ti, ki), Op: "window",
 						Fields: []string{hx(kind), hx(body), hx(nt)}, Meta: map[string]string{}})
 				}
+			}
+		}
+		// texts with a dozen matches and more: the op then also runs two-digit counts and counts spelled with leading zeros
+		for i, bt := range [][2]string{{"'ab'", strings.Repeat("ab ", 12)}, {"digit", "0123456789012 345"}, {"(letter = l) 'x'", strings.Repeat("ax bx ", 7)},
+			{"whole line", strings.Repeat("l\n", 13)}} {
+			for ki, kind := range []string{"find", "replace"} {
+				body := bt[0]
+				if kind == "replace" {
+					body += " with '<' matchNumber '>'"
+				}
+				st.Features["window-many-matches"]++
+				cases = append(cases, Case{ID: fmt.Sprintf("wm%d.%d", i, ki), Op: "window", Fields: []string{hx(kind), hx(body), hx(bt[1])}, Meta: map[string]string{}})
 			}
 		}
 		// the general stream too: programs with amount clauses, model vs implementation
